@@ -158,7 +158,7 @@ def with_twins(draw, base):
     if not cands:
         return sp
     kind = draw(st.sampled_from(["identical", "identical-both-invalid", "identical-both-misordered", "attr-value", "attr-value",
-                                 "attr-value", "content", "deep-content", "child-dropped"]))
+                                 "attr-value", "attr-value", "attr-value", "content", "deep-content", "child-dropped"]))
 
     def enums_of(s):
         rn = R.node_mappings.get(s["n"])
@@ -202,7 +202,7 @@ def with_twins(draw, base):
         del twin["k"][draw(st.integers(0, len(twin["k"]) - 1))]
         if not twin["k"]:
             del twin["k"]
-    first_is_original = draw(st.booleans())
+    first_is_original = draw(st.integers(0, 3)) > 0
     i = path[-1]
     if first_is_original:
         parent["k"].insert(i + 1, twin)
